@@ -96,6 +96,7 @@ class Acc(object):
 # STALL_TICKS consecutive ticks, WallClock is raised inside it.  The verdict is only a suspicion:
 # the runner re-executes the instance alone with a 60 s limit before it is believed (DESIGN 3.7).
 CALLS = 0
+NEWCALL = None      # set by common.t_ordered in per-object order mode: restarts the numbering of set objects
 IN_LIB = False
 _LAST = [-1, 0]
 STALL_TICK_S = 2.0
@@ -137,6 +138,8 @@ def lib_call(acc, function, instance, f, *args, repro=None, clause='raises', **k
     Returns (ok, value)."""
     global CALLS, IN_LIB
     CALLS += 1
+    if NEWCALL is not None:
+        NEWCALL()
     IN_LIB = True
     try:
         v = f(*args, **kw)
